@@ -5,9 +5,12 @@
    under gate logic [l] when the executor's call produced [z] and the
    assessor's produced [y] ([VRaised] = the call raised); [outcome H cf q] is
    the LoopResult core (success, action, blocked, token) built from it, with
-   [H] = sha256(.)[:16]; [trace H K cf qs] is the list of (request, reply)
-   pairs of a whole history [qs] against one loop object with configuration
-   [cf], [K] = md5(.)[:16] being the cache key.
+   [H] = sha256(.)[:16]; a history [ops] against one loop object is a list of
+   operations (requests [OReq q], [OClear] = clear_cache(), [OObserve] = the
+   read-only calls); [trace H K cf ops] is the list of its (request, reply)
+   pairs, [cf] being the configuration and [K] = md5(.)[:16] the cache key;
+   [sys_trace H K cf0 cf1 tops] is every step of two loop objects driven by one
+   interleaved list, [proj b] the part that concerns object [b].
    [spec_pass] (Proofs.v) is the table of the property text, transcribed
    independently of the code. *)
 From Coq Require Import ZArith List Bool.
@@ -65,15 +68,42 @@ Print Assumptions c07_token_iff_assessor_permit.
 
 (* In any history, a reply that is not served from the cache is the gate's
    outcome on what the two agents said at that very request (so the four
-   theorems above apply to it), the executor was asked, and the assessor was
-   asked unless the executor raised. *)
+   theorems above apply to it), the executor was asked, the assessor was
+   asked unless the executor raised, and what they were shown is exactly the
+   prompt. *)
 Theorem c07_fresh_reply_is_gate :
-  forall (H K : str -> str) cf qs i qi ri,
-    nth_error (trace H K cf qs) i = Some (qi, ri) -> r_cached ri = false ->
+  forall (H K : str -> str) cf ops i qi ri,
+    nth_error (trace H K cf ops) i = Some (qi, ri) -> r_cached ri = false ->
     r_core ri = outcome H cf qi /\ r_exec_called ri = true /\
-    r_assess_called ri = negb (raised (q_exec qi)).
+    r_assess_called ri = negb (raised (q_exec qi)) /\ r_shown ri = Some (q_prompt qi).
 Proof. exact fresh_reply_proof. Qed.
 Print Assumptions c07_fresh_reply_is_gate.
+
+(* Whether a reply is served from the cache is not a matter of what the loop
+   says about it: the agents are consulted for exactly the replies that are
+   not marked cached. *)
+Theorem c07_agents_consulted_iff_not_cached :
+  forall (H K : str -> str) cf ops i qi ri,
+    nth_error (trace H K cf ops) i = Some (qi, ri) ->
+    r_exec_called ri = negb (r_cached ri) /\
+    (r_assess_called ri = true -> r_cached ri = false) /\
+    (r_shown ri <> None -> r_cached ri = false).
+Proof. exact consulted_iff_not_cached_proof. Qed.
+Print Assumptions c07_agents_consulted_iff_not_cached.
+
+(* Whole-history form of "any agent exception yields blocked": in every
+   history, whatever the cache holds for the prompt (nothing, a valid entry, an
+   expired one, one that was cleared or evicted), a request at which an agent
+   was consulted and the executor or the assessor raised comes back as the
+   blocked ERROR result without a token, and is not marked cached. *)
+Theorem c07_history_exception_blocks :
+  forall (H K : str -> str) cf ops i qi ri,
+    nth_error (trace H K cf ops) i = Some (qi, ri) ->
+    r_exec_called ri = true \/ r_assess_called ri = true \/ r_cached ri = false ->
+    q_exec qi = VRaised \/ q_assess qi = VRaised ->
+    r_core ri = mkCore false AError true None /\ r_cached ri = false.
+Proof. exact history_exception_blocks_proof. Qed.
+Print Assumptions c07_history_exception_blocks.
 
 (* Cached replies are identical in verdict to the original: for every history
    (any length, any clock values, any agent behaviour) on whose prompts the
@@ -82,11 +112,11 @@ Print Assumptions c07_fresh_reply_is_gate.
    prompt — which was the gate's outcome at that request — it is served within
    the TTL of that reply, and neither agent is invoked for it. *)
 Theorem c07_cache_same_verdict :
-  forall (H K : str -> str) cf qs,
-    (forall a b, In a qs -> In b qs -> K (q_prompt a) = K (q_prompt b) -> q_prompt a = q_prompt b) ->
-    forall i qi ri, nth_error (trace H K cf qs) i = Some (qi, ri) -> r_cached ri = true ->
+  forall (H K : str -> str) cf ops,
+    (forall a b, In (OReq a) ops -> In (OReq b) ops -> K (q_prompt a) = K (q_prompt b) -> q_prompt a = q_prompt b) ->
+    forall i qi ri, nth_error (trace H K cf ops) i = Some (qi, ri) -> r_cached ri = true ->
       exists j qj rj,
-        (j < i)%nat /\ nth_error (trace H K cf qs) j = Some (qj, rj) /\
+        (j < i)%nat /\ nth_error (trace H K cf ops) j = Some (qj, rj) /\
         q_prompt qj = q_prompt qi /\ r_cached rj = false /\
         r_core ri = r_core rj /\ r_core rj = outcome H cf qj /\
         q_time qi - q_time qj < cf_ttl cf /\
@@ -96,10 +126,10 @@ Print Assumptions c07_cache_same_verdict.
 
 (* The same without the injectivity assumption: what is shared is the key. *)
 Theorem c07_cache_same_key :
-  forall (H K : str -> str) cf qs i qi ri,
-    nth_error (trace H K cf qs) i = Some (qi, ri) -> r_cached ri = true ->
+  forall (H K : str -> str) cf ops i qi ri,
+    nth_error (trace H K cf ops) i = Some (qi, ri) -> r_cached ri = true ->
       exists j qj rj,
-        (j < i)%nat /\ nth_error (trace H K cf qs) j = Some (qj, rj) /\
+        (j < i)%nat /\ nth_error (trace H K cf ops) j = Some (qj, rj) /\
         K (q_prompt qj) = K (q_prompt qi) /\ r_cached rj = false /\
         r_core ri = r_core rj /\ r_core rj = outcome H cf qj /\
         q_time qi - q_time qj < cf_ttl cf /\
@@ -111,10 +141,10 @@ Print Assumptions c07_cache_same_key.
    cached or not, that is not blocked goes back to a request (itself when
    uncached) at which the agents' verdicts satisfied the configured logic. *)
 Theorem c07_history_pass_only_if :
-  forall (H K : str -> str) cf qs i qi ri,
-    nth_error (trace H K cf qs) i = Some (qi, ri) -> c_blocked (r_core ri) = false ->
+  forall (H K : str -> str) cf ops i qi ri,
+    nth_error (trace H K cf ops) i = Some (qi, ri) -> c_blocked (r_core ri) = false ->
     exists j qj rj,
-      (j <= i)%nat /\ nth_error (trace H K cf qs) j = Some (qj, rj) /\
+      (j <= i)%nat /\ nth_error (trace H K cf ops) j = Some (qj, rj) /\
       K (q_prompt qj) = K (q_prompt qi) /\ r_cached rj = false /\
       (r_cached ri = false -> j = i) /\
       spec_pass (cf_logic cf) (q_exec qj) (q_assess qj) = true.
@@ -126,17 +156,60 @@ Print Assumptions c07_history_pass_only_if.
    names the assessor, sits on a not-blocked reply, and the assessor said
    PERMIT to this prompt when it was asked. *)
 Theorem c07_history_token_bound :
-  forall (H K : str -> str) cf qs,
-    (forall a b, In a qs -> In b qs -> K (q_prompt a) = K (q_prompt b) -> q_prompt a = q_prompt b) ->
-    forall i qi ri t, nth_error (trace H K cf qs) i = Some (qi, ri) ->
+  forall (H K : str -> str) cf ops,
+    (forall a b, In (OReq a) ops -> In (OReq b) ops -> K (q_prompt a) = K (q_prompt b) -> q_prompt a = q_prompt b) ->
+    forall i qi ri t, nth_error (trace H K cf ops) i = Some (qi, ri) ->
       c_token (r_core ri) = Some t ->
       tk_hash t = H (q_prompt qi) /\ tk_issuer t = cf_assessor cf /\
       c_blocked (r_core ri) = false /\
       exists j qj rj,
-        (j <= i)%nat /\ nth_error (trace H K cf qs) j = Some (qj, rj) /\
+        (j <= i)%nat /\ nth_error (trace H K cf ops) j = Some (qj, rj) /\
         q_prompt qj = q_prompt qi /\ r_cached rj = false /\ q_assess qj = VPermit.
 Proof. exact history_token_bound_proof. Qed.
 Print Assumptions c07_history_token_bound.
+
+(* A token is good for one request only: in a history on whose prompts the
+   two truncated hashes are injective, two replies (cached or not) whose tokens
+   carry the same request hash answer the same prompt. *)
+Theorem c07_tokens_not_interchangeable :
+  forall (H K : str -> str) cf ops,
+    (forall a b, In (OReq a) ops -> In (OReq b) ops -> K (q_prompt a) = K (q_prompt b) -> q_prompt a = q_prompt b) ->
+    (forall a b, In (OReq a) ops -> In (OReq b) ops -> H (q_prompt a) = H (q_prompt b) -> q_prompt a = q_prompt b) ->
+    forall i qi ri ti j qj rj tj,
+      nth_error (trace H K cf ops) i = Some (qi, ri) -> c_token (r_core ri) = Some ti ->
+      nth_error (trace H K cf ops) j = Some (qj, rj) -> c_token (r_core rj) = Some tj ->
+      tk_hash ti = tk_hash tj -> q_prompt qi = q_prompt qj.
+Proof. exact tokens_not_interchangeable_proof. Qed.
+Print Assumptions c07_tokens_not_interchangeable.
+
+(* clear_cache(): the replies of a history with a clear in it are those of the
+   part before, followed by those of the part after against a NEW loop (so every
+   theorem above applies to the part after on its own: a cached reply after a
+   clear has its original after the clear). *)
+Theorem c07_clear_forgets :
+  forall (H K : str -> str) cf ops1 ops2,
+    trace H K cf (ops1 ++ OClear :: ops2) = trace H K cf ops1 ++ trace H K cf ops2.
+Proof. exact clear_forgets_proof. Qed.
+Print Assumptions c07_clear_forgets.
+
+(* The read-only calls (statistics, results log, breaker stats) change no reply. *)
+Theorem c07_observe_is_noop :
+  forall (H K : str -> str) cf ops1 ops2,
+    trace H K cf (ops1 ++ OObserve :: ops2) = trace H K cf (ops1 ++ ops2).
+Proof. exact observe_noop_proof. Qed.
+Print Assumptions c07_observe_is_noop.
+
+(* Two loop objects (any two configurations) driven by one interleaved list of
+   operations do not influence each other: what object [b] replies is what it
+   replies to its own operations alone - so every theorem above holds of each
+   object of a system, and no reply of one object goes back to a request made
+   to the other. *)
+Theorem c07_loops_isolated :
+  forall (H K : str -> str) cf0 cf1 tops b,
+    reqs_of (proj b (sys_trace H K cf0 cf1 tops)) =
+    trace H K (if b then cf1 else cf0) (proj b tops).
+Proof. exact loops_isolated_proof. Qed.
+Print Assumptions c07_loops_isolated.
 
 (* Generated-data obligations: the table obtained on this run by calling the
    real _apply_gate_logic on every combination is the model's gate, and it
